@@ -123,6 +123,8 @@ def match_finding(entries, pid, fork, dev):
             continue
         if m.get("class") and m["class"] != dev["class"]:
             continue
+        if m.get("class_in") and dev["class"] not in m["class_in"]:
+            continue
         if m.get("field") and not re.fullmatch(m["field"], dev.get("field", "")):
             continue
         if m.get("op") and not re.fullmatch(m["op"], dev.get("op", "")):
@@ -153,6 +155,7 @@ def run(tier, seed):
     distinct = set()
     field_ops = {}
     read_cov = {}
+    fork_stats = {}
     for o in outs:
         cov["transitions"] += o["generated"]
         st = {}
@@ -180,6 +183,7 @@ def run(tier, seed):
                 _, name, form = k.split("|", 2)
                 reads.setdefault(name, {})[form] = v
         read_cov[o["fork"]] = reads
+        fork_stats[o["fork"]] = st
         field_ops[o["fork"]] = (o["fields"], fcov)
         cov["per_fork"][o["fork"]] = {
             "behaviours": nb, "ops": ops, "fields": len(o["fields"]),
@@ -206,7 +210,7 @@ def run(tier, seed):
             if not fcov.get(f["name"]):
                 holes.append("%s.%s never written" % (fork, f["name"]))
         pf = cov["per_fork"][fork]
-        for op in ("copy", "advance", "load"):
+        for op in ("copy", "advance", "load", "addvalidator", "scribble"):
             if pf["ops"].get(op, 0) == 0:
                 holes.append("%s: action %s never taken" % (fork, op))
         if fork != "electra" and pf["advance"]["advance_ok"] == 0:
@@ -216,6 +220,19 @@ def run(tier, seed):
         for name, form in REQUIRED_READS:
             if name in names and read_cov[fork].get(name, {}).get(form, 0) == 0:
                 holes.append("%s.%s never read via %s" % (fork, name, form))
+    for fork, (fields, _) in field_ops.items():
+        st = fork_stats[fork]
+        for f in fields:
+            if "addvalidator" in f["ops"] and st.get("addvalidator_list|" + f["name"], 0) == 0:
+                holes.append("%s: AddValidator never checked on %s" % (fork, f["name"]))
+        if not any("addvalidator" in f["ops"] for f in fields):
+            holes.append("%s: no per-validator list is bound to AddValidator" % fork)
+        for k in ("scribbled_arguments", "scribbled_argument_cells", "scribbled_results|Raw", "scribbled_results|latest_block_header",
+                  "subview_setter_args_scribbled"):
+            if st.get(k, 0) == 0:
+                holes.append("%s: %s is zero" % (fork, k))
+        cov["per_fork"][fork]["aliasing"] = {k: v for k, v in st.items() if k.startswith("scribbled") or k.startswith("subview_setter_args")}
+        cov["per_fork"][fork]["addvalidator_lists"] = {k.split("|", 1)[1]: v for k, v in st.items() if k.startswith("addvalidator_list|")}
     cov["read_forms"] = read_cov
     if holes:
         raise lib.InfraError("StateStore coverage holes: " + "; ".join(holes[:15]))
